@@ -136,33 +136,40 @@ def _per_seg_factors(nseg):
 
 # view: (name, reader(sim, nseg) -> object, kind, columns|None, normalise kind, source)
 def _views():
+    """Product of view methods x normalisation shapes x concatenated / split."""
     allcols = VARS + ["k1", "k2", "n", "c", "dv", "dp"] + RXNS + ["sv", "sf", "ro"]
-    return [
-        ("variables", lambda s, n: s.variables, "cat", VARS + ["dv", "sv", "ro"], None, "vals"),
+    full = VARS + ["dv", "sv", "ro"]
+    views = [
+        ("variables", lambda s, n: s.variables, "cat", full, None, "vals"),
         ("fluxes", lambda s, n: s.fluxes, "cat", FLUXES, None, "vals"),
-        ("get_args()", lambda s, n: s.get_args(), "cat", VARS + ["dv"] + RXNS, None, "vals"),
-        ("get_args(all)", lambda s, n: s.get_args(include_parameters=True, include_derived_parameters=True, include_readouts=True,
-                                                    include_surrogate_variables=True, include_surrogate_fluxes=True), "cat", allcols, None, "vals"),
-        ("get_args(split)", lambda s, n: s.get_args(concatenated=False), "split", VARS + ["dv"] + RXNS, None, "vals"),
-        ("get_variables(raw)", lambda s, n: s.get_variables(include_derived_variables=False, include_readouts=False, include_surrogate_variables=False), "cat", VARS, None, "vals"),
-        ("get_variables(split)", lambda s, n: s.get_variables(concatenated=False), "split", VARS + ["dv", "sv", "ro"], None, "vals"),
-        ("get_variables(norm=2)", lambda s, n: s.get_variables(normalise=2.0), "cat", VARS + ["dv", "sv", "ro"], "scalar", "vals"),
-        ("get_fluxes(no-surrogates)", lambda s, n: s.get_fluxes(include_surrogates=False), "cat", RXNS, None, "vals"),
-        ("get_fluxes(norm=scalar)", lambda s, n: s.get_fluxes(normalise=2.0), "cat", FLUXES, "scalar", "vals"),
-        ("get_fluxes(norm=per-segment)", lambda s, n: s.get_fluxes(normalise=_per_seg_factors(n)), "cat", FLUXES, "segment", "vals"),
-        ("get_fluxes(norm=per-row)", lambda s, n: s.get_fluxes(normalise=_per_row_factors(n)), "cat", FLUXES, "row", "vals"),
-        ("get_fluxes(norm=per-row,split)", lambda s, n: s.get_fluxes(normalise=_per_row_factors(n), concatenated=False), "split", FLUXES, "row", "vals"),
-        ("get_combined", lambda s, n: s.get_combined(), "cat", VARS + ["dv", "sv", "ro"] + FLUXES, None, "vals"),
-        ("get_right_hand_side", lambda s, n: s.get_right_hand_side(), "cat", VARS, None, "rhs"),
-        ("get_right_hand_side(split)", lambda s, n: s.get_right_hand_side(concatenated=False), "split", VARS, None, "rhs"),
-        ("get_right_hand_side(norm=per-segment)", lambda s, n: s.get_right_hand_side(normalise=_per_seg_factors(n)), "cat", VARS, "segment", "rhs"),
-        ("get_producers(y)", lambda s, n: s.get_producers("y"), "cat", ["v1"], None, "vals"),
-        ("get_producers(y,scaled)", lambda s, n: s.get_producers("y", scaled=True), "cat", ["v1"], None, "scaled"),
-        ("get_consumers(y)", lambda s, n: s.get_consumers("y"), "cat", ["v2", "sf"], None, "vals"),
-        ("get_consumers(y,scaled,split)", lambda s, n: s.get_consumers("y", scaled=True, concatenated=False), "split", ["v2", "sf"], None, "scaled"),
-        ("get_producers(x,norm=scalar)", lambda s, n: s.get_producers("x", normalise=2.0), "cat", ["v0"], "scalar", "vals"),
+        ("get_combined", lambda s, n: s.get_combined(), "cat", full + FLUXES, None, "vals"),
         ("get_new_y0", lambda s, n: s.get_new_y0(), "y0", VARS, None, "vals"),
     ]
+    methods = [
+        ("get_variables(raw)", lambda s, **kw: s.get_variables(include_derived_variables=False, include_readouts=False, include_surrogate_variables=False, **kw), VARS, "vals"),
+        ("get_variables(full)", lambda s, **kw: s.get_variables(**kw), full, "vals"),
+        ("get_variables(derived-only)", lambda s, **kw: s.get_variables(include_readouts=False, include_surrogate_variables=False, **kw), VARS + ["dv"], "vals"),
+        ("get_args()", lambda s, **kw: s.get_args(**kw), VARS + ["dv"] + RXNS, "vals"),
+        ("get_args(all)", lambda s, **kw: s.get_args(include_parameters=True, include_derived_parameters=True, include_readouts=True,
+                                                      include_surrogate_variables=True, include_surrogate_fluxes=True, **kw), allcols, "vals"),
+        ("get_fluxes()", lambda s, **kw: s.get_fluxes(**kw), FLUXES, "vals"),
+        ("get_fluxes(no-surrogates)", lambda s, **kw: s.get_fluxes(include_surrogates=False, **kw), RXNS, "vals"),
+        ("get_right_hand_side", lambda s, **kw: s.get_right_hand_side(**kw), VARS, "rhs"),
+        ("get_producers(y)", lambda s, **kw: s.get_producers("y", **kw), ["v1"], "vals"),
+        ("get_producers(y,scaled)", lambda s, **kw: s.get_producers("y", scaled=True, **kw), ["v1"], "scaled"),
+        ("get_consumers(y)", lambda s, **kw: s.get_consumers("y", **kw), ["v2", "sf"], "vals"),
+        ("get_consumers(y,scaled)", lambda s, **kw: s.get_consumers("y", scaled=True, **kw), ["v2", "sf"], "scaled"),
+        ("get_producers(x)", lambda s, **kw: s.get_producers("x", **kw), ["v0"], "vals"),
+    ]
+    norms = {None: lambda n: None, "scalar": lambda n: 2.0, "segment": _per_seg_factors, "row": _per_row_factors}
+    for mname, fn, cols, source in methods:
+        for norm, nf in norms.items():
+            for cat in (True, False):
+                def reader(s, n, _fn=fn, _nf=nf, _cat=cat):
+                    return _fn(s, normalise=_nf(n), concatenated=_cat)
+
+                views.append((f"{mname}[norm={norm},{'cat' if cat else 'split'}]", reader, "cat" if cat else "split", cols, norm, source))
+    return views
 
 
 VIEWS = _views()
@@ -259,7 +266,11 @@ def state_key(sim):
         pv = sorted(sim.model.get_parameter_values().items())
     except Exception as exc:  # noqa: BLE001
         pv = f"EXC {type(exc).__name__}"
-    return sha12({"args": args, "params": pv})
+    # the stored trajectory and segment parameters are part of the state too: a view that modified them in
+    # place must not be merged with the untouched state
+    raw = [[list(f.columns), [float(i) for i in f.index], np.asarray(f.to_numpy(), dtype=float).round(12).tolist()] for f in sim.raw_variables]
+    rp = [sorted((k, float(v)) for k, v in p.items()) for p in sim.raw_parameters]
+    return sha12({"args": args, "params": pv, "raw_variables": raw, "raw_parameters": rp})
 
 
 def apply_op(sim, nseg, oi):
